@@ -346,8 +346,26 @@ def render_run_fn(d, table, surface, with_const=True):
                 vk = "support::VK::Small(2)"
             else:
                 vk = "support::VK::Bits(%d)" % f["width"]
-            infos.append("support::FI { name: \"%s\", count: %s, vk: %s }" % (f["name"], "None" if f["count"] is None else "Some(%d)" % f["count"], vk))
-        L.append("    support::op_hist(o, \"%s\", %d, &[%s], &mk, &rawof, &stor, &apply, &getters, &|s: &%s| mk(rawof(s)));" % (name, N, ", ".join(infos), name))
+            # read-back after a history: only fields with a getter whose range list names no bit twice
+            sp = f.get("spec") or {}
+            bits = [b for (lo, hi) in (sp.get("ranges") or []) for b in range(lo, hi + 1)]
+            has_get = f["name"] in surface or ident_noraw(f["name"]) in surface
+            rbk = "true" if (has_get and bits and len(bits) == len(set(bits))) else "false"
+            infos.append("support::FI { name: \"%s\", count: %s, vk: %s, rb: %s }" % (f["name"], "None" if f["count"] is None else "Some(%d)" % f["count"], vk, rbk))
+        L.append("    let readback = |s: &%s, fi: usize, i: usize| -> Option<String> {" % name)
+        L.append("        let _ = i;")
+        L.append("        match fi {")
+        for j, (fi, f) in enumerate(fields_for_hist):
+            fname = f["name"]
+            if fname in surface or ident_noraw(fname) in surface:
+                if f["count"] is None:
+                    L.append("            %d => Some(support::res(support::catch(|| s.%s())))," % (j, fname))
+                else:
+                    L.append("            %d => Some(support::res(support::catch(|| s.%s(i))))," % (j, fname))
+        L.append("            _ => None,")
+        L.append("        }")
+        L.append("    };")
+        L.append("    support::op_hist(o, \"%s\", %d, &[%s], &mk, &rawof, &stor, &apply, &getters, &|s: &%s| mk(rawof(s)), &readback);" % (name, N, ", ".join(infos), name))
     # builder
     writable = [f for f in d["fields"] if ("with_" + ident_noraw(f["name"])) in surface]
     if "builder" in surface and "build" in surface and d.get("builder_ok", True):
